@@ -67,4 +67,5 @@ package block
 //@ func (*Block).DecodeBinary
 //@ requires b != nil && io.validR(br)
 //@ opt frame off
+//@ opt alloc-bound 65535
 //@ loop 0 invariant io.validR(br)
